@@ -112,7 +112,8 @@ Definition set_off (k : nat) (cfg : deviations) : deviations :=
      d_float_floor := if Nat.eqb k 63 then false else d_float_floor cfg;
      d_su_coincidence := if Nat.eqb k 64 then false else d_su_coincidence cfg;
      d_newsub_adj_recheck := if Nat.eqb k 62 then false else d_newsub_adj_recheck cfg;
-     d_legacy_gap_recheck := if Nat.eqb k 66 then false else d_legacy_gap_recheck cfg |}.
+     d_legacy_gap_recheck := if Nat.eqb k 66 then false else d_legacy_gap_recheck cfg;
+     d_md_invalid_raises := if Nat.eqb k 65 then false else d_md_invalid_raises cfg |}.
 
 Definition res_eqb (a b : res cand) : bool :=
   match a, b with
@@ -129,6 +130,7 @@ Definition ncase_attrib (tz : tzdata) (cfg : deviations) (c : ncase) : list nat 
   (if d_period_wallclock cfg && rel 60%nat then [60%nat] else []) ++
   (if d_once_md_this_year cfg && rel 61%nat then [61%nat] else []) ++
   (if d_su_coincidence cfg && rel 64%nat then [64%nat] else []) ++
+  (if d_md_invalid_raises cfg && rel 65%nat then [65%nat] else []) ++
   (if d_float_floor cfg && negb (obs_matches (nc_obs c) base) && obs_matches (nc_obs c) (run_next gen_scale tz cfg true c)
    then [63%nat] else []).
 
@@ -163,9 +165,34 @@ Definition rcall_case (c : rcase) (call : Z * nobs) : ncase :=
   {| nc_specs := rc_specs c; nc_now := fst call; nc_su := rc_su c; nc_sun := rc_sun c; nc_obs := snd call |}.
 
 (* tie: every next-time computation the running trigger made is reproduced by the Model *)
+(* the computation that produced instant t: (now, next_time_adj) *)
+Definition call_for (c : rcase) (t : Z) : option (Z * Z) :=
+  match find (fun call => match snd call with ORes (Some (t', _)) => t' =? t | _ => false end) (rc_calls c) with
+  | Some (now, ORes (Some (_, adj))) => Some (now, adj)
+  | _ => None
+  end.
+
+(* when the Model's wake-up loop runs the function, if the first wait ends [e] microseconds off its target *)
+Definition predicted_run (tz : tzdata) (cfg : deviations) (legacy : bool) (now t adj e : Z) : option Z :=
+  let u0 := tz_lu tz now + (adj - now) + e in
+  if legacy then legacy_wake (tz_lu tz) (tz_ul tz) cfg 8 t u0 else default_wake (tz_lu tz) (tz_ul tz) cfg 8 t adj u0.
+
+Definition WAKE_JITTER : list Z := [0; -1; 1; -2; 2; -3; 3].    (* float rounding of the virtual clock, in microseconds *)
+
+Definition run_predicted (tz : tzdata) (cfg : deviations) (c : rcase) (r : Z * Z) : bool :=
+  match call_for c (snd r) with
+  | Some (now, adj) =>
+      existsb (fun e => match predicted_run tz cfg (rc_legacy c) now (snd r) adj e with
+                        | Some u => Z.abs (u - fst r) <=? 3
+                        | None => false
+                        end) WAKE_JITTER
+  | None => false
+  end.
+
 Definition rcase_model_ok (tz : tzdata) (cfg : deviations) (c : rcase) : bool :=
   rc_wellformed c &&
-  forallb (fun call => ncase_model_ok tz cfg (rcall_case c call)) (rc_calls c).
+  forallb (fun call => ncase_model_ok tz cfg (rcall_case c call)) (rc_calls c) &&
+  forallb (run_predicted tz cfg c) (flat_map (fun r => match snd r with RTime t => [(fst r, t)] | _ => [] end) (rc_runs c)).
 
 (* the instants that must fire: the chain of conformant successors from startup_time up to the removal *)
 Fixpoint expected_instants (fuel : nat) (tz : tzdata) (c : rcase) (now : Z) : option (list Z) :=
